@@ -179,22 +179,22 @@ var props = map[string]propSpec{
 	"C03": withVariants(storeProp("exploration", 60, 900, "one case = seeded corpus ingested into one fraction; the same battery (exact/wildcard/range/boolean searches both orders, limits, totals, histograms, aggregations, fetch lists with absent ids) is answered by the active fraction, the freshly sealed (preloaded) one, the one loaded from files after restart, after cache reset and during timer-driven cache eviction with readers overlapping; every answer must equal the model (hence each other); build variants of the on-disk block constants (default 64Ki/4Ki/16KiB, small 64/64/1KiB, tiny LIDBlockCap 8, 4 ids per block, 64 B blocks) so that postings, ID tables and token dictionaries straddle block boundaries with tens of documents; knob swarm over DocBlockSize, zstd level, SkipSortDocs, cache size 4KiB..256MiB"+ntRule), "small", "tiny"),
 	"C05": withVariants(clusterProp(45, 600, "one case = 1-3 shards x 1-3 replicas of real stores behind the real bulk.SeqDBClient and search.Ingestor on the simulated transport (seeded per-call latencies reorder shard replies); bulks are routed by the client's shuffled shard choice, per-store FracSize is small so rotation/sealing happen at different moments on different nodes, timestamps arrive out of order so fraction ranges overlap, FractionsPerIteration differs per store, optional seal/restart of a store; searches through the proxy: both orders, limits, totals, histograms, paging with sizes 1..8 walked page by page, documents stream; compared with the model over the union; in 30% of the cases some bulks also reach a second shard (documents present on several shards): listed once, paging exact, total/histogram exact when the listing covers the whole result; aggregation limits as shipped in half of the cases; every fourth seed is a store-level sub-profile: one store under continuous size-based retention, overlapping fractions, searches in chunks of 1-2 fractions that take simulated time, complete listings alternating with limits 1-8, oracle = soundness + acknowledged documents of fractions sealed before the search and still served after it are listed unless the listing is full and ends before them"+"; build variant tiny of the on-disk block constants (LIDBlockCap 8, 4 ids per block, 64 B blocks) in half of the runs so that sealed fractions have many blocks"+ntRule), "tiny"),
 	"C06": withVariants(clusterProp(45, 600, "same cluster as C05 with an aggregation/histogram-heavy battery: count/unique/sum/min/max/avg/quantile with and without group-by, histograms with intervals 1ms..60s, one aggregation in four as a time series with its own interval (7 ms..1 h, compared per group x bucket), final values computed by the proxy from the merged summaries; partial results of fractions are merged per store and shard replies are merged by the proxy in simulated arrival order; every bin compared with values computed directly from the matching documents (quantiles exactly, samples <= 8096); aggregation limits as shipped (per-source counting path) in half of the cases"+"; build variant tiny of the on-disk block constants (LIDBlockCap 8, 4 ids per block, 64 B blocks) in half of the runs so that sealed fractions have many blocks"+ntRule), "tiny"),
-	"C07": withVariants(storeProp("exploration", 50, 900, "one case = 1-4 writer and 1-4 reader clients (search+immediate fetch of hits, fetch of absent/border ids) concurrent with the real maintenance loop (rotate->seal->release, retention in a third of the runs) and cache cleaner; seeded scheduler pre-empts at every lock/channel/wait and at statement level in the index-update code; per-request soundness checks inside readers, full model equality once writers are idle"+"; build variant tiny of the on-disk block constants (LIDBlockCap 8, 4 ids per block, 64 B blocks) in half of the runs so that sealed fractions have many blocks"+ntRule), "tiny"),
+	"C07": withVariants(storeProp("exploration", 50, 900, "one case = 1-4 writer and 1-4 reader clients (search+immediate fetch of hits, fetch of absent/border ids) concurrent with the real maintenance loop (rotate->seal->release, retention in a third of the runs) and cache cleaner; seeded scheduler pre-empts at every lock/channel/wait and at statement level in the index-update code; per-request soundness checks inside readers, full model equality once writers are idle; in a quarter of the cases some reader searches are built to fail inside the fractions (sum over a non-numeric field; 2-3 search workers); at every quiescent point no search worker slot may be taken (a slot never given back = deadlock by exhaustion, reported at the first)"+"; build variant tiny of the on-disk block constants (LIDBlockCap 8, 4 ids per block, 64 B blocks) in half of the runs so that sealed fractions have many blocks"+ntRule), "tiny"),
 	"C08": withVariants(storeProp("fault_enumeration", 50, 900, "one case = seeded corpus, then a seal (forced, size-triggered by the maintenance loop, or on graceful stop) with one planned fault: crash/process-exit at the k-th mutating disk operation of the seal (64 consecutive seeds walk k=1..64 over the same corpus), or the k-th write/sync/rename/create on the index/sorted-docs output failing with EIO/ENOSPC/short write; validation right after the seal (if the process survived) and after restart"+"; build variant tiny of the on-disk block constants (LIDBlockCap 8, 4 ids per block, 64 B blocks) in half of the runs so that sealed fractions have many blocks"+ntRule), "tiny"),
 	"C14": withVariants(storeProp("exploration", 45, 600, "one case = documents timestamped -72h..+3h relative to the simulated clock (around the 10-minute rule, the 24h clip and minute-bucket borders), clock jumps of hours between fractions, seal, restart with present/deleted/garbled/stale/moved (valid, paths of another location) .frac-cache; battery of range queries whose ends fall on/around document timestamps and bucket borders, compared with the model that examines every document; a quarter of the documents repeat the previous timestamp (runs of equal milliseconds across ID-block and bucket borders), 15% of the documents of later fractions tie with a border document of an earlier fraction"+"; build variant tiny of the on-disk block constants (LIDBlockCap 8, 4 ids per block, 64 B blocks) in half of the runs so that sealed fractions have many blocks"+ntRule), "tiny"),
 	"C15": storeProp("fault_enumeration", 50, 900, "one case = 2-5 rounds of sequential bulks with small FracSize/TotalSize so that create->rotate->seal->retention->.frac-cache cycle, a planned crash at the k-th create/rename/remove/dirsync/any mutating op per round, power loss/kill/stop, optional .frac-cache tampering (deleted, garbled, truncated, foreign entry, valid with the paths of another location); after every restart: store comes up, every known fraction is wholly served or wholly gone, served ones are the newest, fractions with .del files in the image never serve again"+ntRule),
 	"C17": withVariants(storeProp("exploration", 45, 600, "one case = history of bulks with re-deliveries (whole-bulk repeats, partial overlaps with new documents, documents of several earlier bulks, the same bulk by two clients concurrently), validation on the active fraction, after seal and after restart/replay; set-semantics model; totals/histograms/aggregations/DocsTotal strict while all copies sit in one fraction; in 35% of the cases documents carry nested elements (several metas under one ID, row semantics in the model: listing de-duplicated, counts compared where every matching document matches through exactly one row)"+"; build variant tiny of the on-disk block constants (LIDBlockCap 8, 4 ids per block, 64 B blocks) in half of the runs so that sealed fractions have many blocks"+ntRule), "tiny"),
 	"C09": {Engine: "proxysim", Level: "fault_enumeration", Batch: 300, QuickSec: 30, ThorSec: 600,
-		Rule: "one case = topology 1-3 shards x 1-3 replicas hot (+ optional long-term tier), real bulk.SeqDBClient with the real circuit breaker (timeouts 50ms..1s, thresholds, sleep window on the fake clock) over scripted stub stores; per replica and call one of: ok, error, hang until the deadline, success after the deadline, reply lost, answer right at the deadline; 1-2 concurrent clients; oracle over the stubs' call log: acknowledged => some hot shard (and some long-term shard) has every replica with a successful call carrying exactly this payload, at most BulkMaxTries deliveries per replica, progress once faults stop; non-trivial = a non-ok outcome fired or the scheduler pre-empted; distinct = distinct (interleaving hash, fired outcome counts)",
+		Rule: "one case = topology 1-3 shards x 1-3 replicas hot (+ optional long-term tier), real bulk.SeqDBClient with the real circuit breaker (timeouts 50ms..1s, thresholds, sleep window on the fake clock) over scripted stub stores; per replica and call one of: ok, error, hang until the deadline, success after the deadline, reply lost, answer right at the deadline; 1-2 concurrent clients (a fifth of the cases without request context: 2-3 clients hand documents to the real bulk.Ingestor with its pooled compressor, which calls the client; a payload is then identified by the documents inside it); oracle over the stubs' call log: acknowledged => some hot shard (and some long-term shard) has every replica with a successful call carrying exactly this payload, at most BulkMaxTries deliveries per replica, progress once faults stop; non-trivial = a non-ok outcome fired or the scheduler pre-empted; distinct = distinct (interleaving hash, fired outcome counts)",
 		Assume: []string{"stub stores answer as scripted; the payload is opaque bytes"},
-		Real:   []string{"proxy/bulk.SeqDBClient (storeDocs, sendBulkToStores, shard.Bulk, write status)", "network/circuitbreaker + cep21/circuit (real)", "second lane (every 4th chunk): the same client against real stores (fracmanager, frac, storeapi.GrpcV1) that crash in the middle of their writes, lose replies and are partitioned; afterwards every acknowledged bulk must sit, byte for byte, on every replica of some hot shard (and some long-term shard)"}, Stub: []string{"stores = scripted StoreApiClient stubs (first lane)", "transport = simnet (second lane)", "clock = synctest fake clock", "scheduling = verifsim"},
+		Real:   []string{"proxy/bulk.SeqDBClient (storeDocs, sendBulkToStores, shard.Bulk, write status)", "proxy/bulk.Ingestor.ProcessDocuments with frac.DocsMetasCompressor (a fifth of the context-free cases)", "network/circuitbreaker + cep21/circuit (real)", "second lane (every 4th chunk): the same client against real stores (fracmanager, frac, storeapi.GrpcV1) that crash in the middle of their writes, lose replies and are partitioned; afterwards every acknowledged bulk must sit, byte for byte, on every replica of some hot shard (and some long-term shard)"}, Stub: []string{"stores = scripted StoreApiClient stubs (first lane)", "transport = simnet (second lane)", "clock = synctest fake clock", "scheduling = verifsim"},
 		Variants: []string{"lane:storesim:cluster-c09:4"}},
 	"C10": {Engine: "proxysim", Level: "exploration", Batch: 300, QuickSec: 30, ThorSec: 600,
-		Rule: "one case = an ES bulk body from a grammar (action/document lines, valid object documents with escapes/unicode/nesting, non-objects, invalid JSON, over-size lines, empty lines, CRLF, unknown actions, missing final newline, body cut at byte k, read error at byte k, gzip) handed to the real BulkHandler.ServeHTTP -> real bulk.Ingestor (processor, indexer, tokenizers) -> capturing StorageClient, at a simulated clock; document times at -drift-1s, -drift, -drift+1s, +future-1s, +future, +future+1s and far, 30% of the timed documents with a second time field of another name, format and instant; the same body is delivered four times with different chunkings of the reader (whole, byte by byte, two seeded chunkings); oracle = independent framing parser + time rule; the outcome must be identical for every chunking; in 40% of the cases all deliveries go through one long-lived ingestor with the simulated clock advancing 0 ms .. 2 x drift between them (pooled per-request state meets requests of different times); in 30% a concurrent phase follows: 2-4 requests (documents marked with their request number) at once on one handler, optionally after a request whose store call failed, the body reader yielding at every Read under the seeded scheduler: every request must get the outcome of its own body and every storage call must carry the documents of exactly one request; non-trivial = always (every case exercises the stream); distinct = distinct (status counts, interleaving hash)",
+		Rule: "one case = an ES bulk body from a grammar (action/document lines, valid object documents with escapes/unicode/nesting, non-objects, invalid JSON, over-size lines, empty lines, CRLF, unknown actions, missing final newline, body cut at byte k, read error at byte k, gzip) handed to the real BulkHandler.ServeHTTP -> real bulk.Ingestor (processor, indexer, tokenizers) -> capturing StorageClient, at a simulated clock; the bulk configuration is what proxyapi.NewIngestor runs with (its defaulting applied), past/future drift from {0, 0.5-1 s, 1 min, 1 day}; document times at -drift-1s, -drift, -drift+1s, +future-1s, +future, +future+1s and far, 30% of the timed documents with a second time field of another name, format and instant; the same body is delivered four times with different chunkings of the reader (whole, byte by byte, two seeded chunkings; in 15% of the cases 300 or 1500 simulated ms pass between chunks); oracle = independent framing parser + time rule; the outcome must be identical for every chunking; in 40% of the cases all deliveries go through one long-lived ingestor with the simulated clock advancing 0 ms .. 2 x drift between them (pooled per-request state meets requests of different times); in 30% a concurrent phase follows: 2-4 requests (documents marked with their request number) at once on one handler, optionally after a request whose store call failed, the body reader yielding at every Read under the seeded scheduler: every request must get the outcome of its own body and every storage call must carry the documents of exactly one request; non-trivial = always (every case exercises the stream); distinct = distinct (status counts, interleaving hash)",
 		Assume: []string{"document lines stay clear of the size limit itself (50 bytes below / 10 above): the boundary behaviour of the limit depends on the line terminator and is not part of the property", "valid/invalid JSON judged by encoding/json on clear-cut cases"},
 		Real:   []string{"proxyapi.BulkHandler (esBulkDocReader, gzip, response)", "proxy/bulk.Ingestor, processor, indexer", "tokenizer", "frac.DocsMetasCompressor"}, Stub: []string{"storage = capturing StorageClient that decodes the payload", "request body = seeded chunk reader", "clock = synctest fake clock"}},
 	"C16": {Engine: "proxysim", Level: "fault_enumeration", Batch: 300, QuickSec: 45, ThorSec: 600,
-		Rule: "one case = topology 1-3 shards x 1-3 replicas (+ optional long-term tier), real search.Ingestor (searchStores/searchShard, MergeQPRs, pagination, FetchDocsStream, merged docs iterators) over scripted stub stores answering from their slice of a model corpus; per call: ok, error, wants-old-data, too-many-fractions, with seeded latencies that decide the arrival order of shard replies; per fetch stream: ok, error, break after k, missing document, 1-3 unrequested or duplicated entries, swapped entries; 1-4 requests per run (offset/size/order/fetch); oracle: error, or ids = correct merged top over exactly the shards that had an answering replica, flagged partial iff some shard had none, long-term tier consulted iff a hot store wants old data, i-th document is the document of the i-th id, or empty only if some fetch call that was asked for it did not deliver it (failed call, broken stream before the entry, empty or reordered entry); a panic inside the proxy is treated as the error response its recovery interceptor produces; non-trivial = a non-ok outcome fired or the scheduler pre-empted; distinct = distinct (interleaving hash, fired outcome counts)",
+		Rule: "one case = topology 1-3 shards x 1-3 replicas (+ optional long-term tier), real search.Ingestor (searchStores/searchShard, MergeQPRs, pagination, FetchDocsStream, merged docs iterators) over scripted stub stores answering from their slice of a model corpus; per call: ok, error, wants-old-data, too-many-fractions, with seeded latencies that decide the arrival order of shard replies; per fetch stream: ok, error, break after k, stall of 90 simulated seconds and then break, missing document, 1-3 unrequested or duplicated entries, swapped entries; 1-4 requests per run (offset/size/order/fetch; 15% through proxyapi Export with a deadline of one minute; in 20% of the cases all requests of the run are in flight at once on the one ingestor); oracle: error, or ids = correct merged top over exactly the shards that had an answering replica, flagged partial iff some shard had none (a shard counts as having none only if every replica scripted to answer whenever asked has been asked), long-term tier consulted iff a hot store wants old data, i-th document is the document of the i-th id, or empty only if some fetch call that was asked for it did not deliver it (failed call, broken stream before the entry, empty or reordered entry); a panic inside the proxy is treated as the error response its recovery interceptor produces; non-trivial = a non-ok outcome fired or the scheduler pre-empted; distinct = distinct (interleaving hash, fired outcome counts)",
 		Assume: []string{"stub stores answer searches correctly for their own slice when scripted ok"},
 		Real:   []string{"proxy/search.Ingestor", "proxy/search docs iterators (grpc stream, merged, position based)", "seq.MergeQPRs", "second lane (every 3rd chunk): the same proxy code plus bulk.SeqDBClient against real stores (fracmanager, frac, storeapi.GrpcV1) with a hot tier under size-based retention and a long-term tier"}, Stub: []string{"stores = scripted StoreApiClient stubs (first lane)", "transport = simnet (second lane)", "clock = synctest fake clock", "scheduling = verifsim"},
 		Variants: []string{"lane:storesim:cluster-c16:3"}},
